@@ -8,11 +8,14 @@
 mod capture;
 mod engine;
 mod gen;
+mod gen_script;
 mod json;
 mod model;
 mod props;
 mod rng;
 mod scn;
+mod script;
+mod session;
 mod world_a;
 
 use engine::Tier;
